@@ -127,7 +127,9 @@ var (
 // Synthetic members of the corpus: valid variants of corpus fonts that reach code paths no
 // shipped file reaches. "synth:svg-gzip.ttf" is toys/chromacheck-svg.ttf with its SVG documents
 // gzip-compressed (allowed by the OpenType specification; the library inflates them on access).
-var Synthetic = []string{"synth:svg-gzip.ttf"}
+// "synth:gsub-long-context.ttf" is common/Roboto-BoldItalic.ttf with a GSUB made of chained
+// context lookups (format 3) whose lookahead sequences are 65 to 200 coverages long.
+var Synthetic = []string{"synth:svg-gzip.ttf", "synth:gsub-long-context.ttf"}
 
 var synthCache = map[string][]byte{}
 
@@ -139,6 +141,17 @@ func synth(name string) []byte {
 	switch name {
 	case "synth:svg-gzip.ttf":
 		out = svgGzip(Bytes("ot:toys/chromacheck-svg.ttf"))
+	case "synth:gsub-long-context.ttf":
+		base := Bytes("ot:common/Roboto-BoldItalic.ttf")
+		gid := font.GID(0)
+		if fs, err := font.ParseTTC(bytes.NewReader(base)); err == nil && len(fs) > 0 {
+			gid, _ = fs[0].NominalGlyph('a')
+		}
+		var ok bool
+		out, ok = faultdisk.Graft(base, "GSUB", faultdisk.SynthGSUBLongContexts(int(gid), []int{65, 66, 80, 97, 128, 129, 150, 200}))
+		if !ok {
+			panic("corpus: cannot build synth:gsub-long-context.ttf")
+		}
 	default:
 		panic("corpus: unknown synthetic font " + name)
 	}
